@@ -56,6 +56,18 @@ def run(env, tier, seed, broken=None):
         for t in [FUN + ' @() {}', FUN + ' f(@) {}', FUN + ' f(a, @) {}', FUN + ' f(a, @, c) {}', '@ = 1;', 'o.@;', 'o.@ = 1;', PRINT + ' {@: 1};', PRINT + ' {a: 1, @: 2};',
                   '@(1);', '{ ' + FUN + ' @() {} }', FUN + ' g() { ' + FUN + ' @() {} }', FUN + ' g() { ' + VAR + ' a = 1, @ = 2; }']:
             texts.append(t.replace('@', nm))
+    # declarator lists: every pattern of initialised / uninitialised declarators up to 4, initialisers that span lines
+    # (array and object literals may), so that each declarator's own initialiser and line end up in the tree
+    for k in (1, 2, 3, 4):
+        for pat in itertools.product([0, 1, 2], repeat=k):
+            ds = []
+            for j, kind in enumerate(pat):
+                nm = 'v%d' % j
+                ds.append(nm if kind == 0 else '%s = %d' % (nm, j + 10) if kind == 1 else '%s = [%d,\n  %d]' % (nm, j, j + 1))
+            texts.append('%s %s;' % (VAR, ', '.join(ds)))
+            if k <= 3:
+                texts.append('%s (%s %s; 0; ) {}' % (FOR, VAR, ', '.join(ds)))
+    texts += ['%s o = {k:\n 1}, p = 2, q;' % VAR, '%s a = [1,\n2,\n3], b = [4], a = [5];' % VAR, '%s a = f(\n1), b;' % VAR, '%s a = (\n1), b;' % VAR, '%s a = 1,\n b = 2;' % VAR, '%s a = [1],\n b = 2;' % VAR]
     # token sequences: depth-first, all of length <= 3 (4 in thorough), random of length 4..14
     for n in (3,) if tier == 'quick' else (3, 4):
         for t in itertools.product(TOKS, repeat=n):
